@@ -36,7 +36,8 @@ SHARD_TIMEOUT = {'quick': 900, 'thorough': 3000}
 CODES = [0, 0, 0, 1, 2, 127, 255, 'sig9', 'sig15']
 NAMES = ['t', 'task one', 'tâche', '.hidden', 'a.b', 'x' * 40, 'UP', 'up',
          'trailing ', '-dash', 'semi;colon', '$HOME', 'quo"te', "it's"]
-BAD_NAMES = ['', 'a/b', '..', '.', 'nul\0x', '/abs']
+BAD_NAMES = ['', 'a/b', '..', '.', 'nul\0x', '/abs', 't/', './t', 't/.', 't//',
+             './', '../', 'up/']
 
 
 def plan(tier, seed):
@@ -49,7 +50,11 @@ def plan(tier, seed):
 
 
 def script_for(uid, code, marker):
-    out = f"echo OUT_{uid}; echo ERR_{uid} >&2; : > '{marker}'; "
+    # every third command also writes carriage returns (progress bars, DOS
+    # line ends): the capture must hold the bytes written
+    extra = "printf 'CR_%s\\r\\nbar\\rX\\n' " + uid + '; ' \
+        if sum(map(ord, uid)) % 3 == 0 else ''
+    out = (f"echo OUT_{uid}; {extra}echo ERR_{uid} >&2; : > '{marker}'; ")
     if code == 'sig9':
         return out + 'kill -9 $$'
     if code == 'sig15':
@@ -100,8 +105,8 @@ def expectation(cmds):
 
 def read(path):
     try:
-        with open(path, errors='replace') as fil:
-            return fil.read()
+        with open(path, 'rb') as fil:
+            return fil.read().decode('utf-8', 'replace')
     except OSError as err:
         return f'<<unreadable: {err}>>'
 
@@ -151,7 +156,10 @@ def judge(name, cmds, status, update, root, rec, case, raised=None):
                       f'with {codes}', case)
     rec.count('output_files_compared')
     out = read(entry['stdout'])
-    want_out = ''.join(f'OUT_{c["uid"]}\n' for c in ran)
+    want_out = ''.join(
+        f'OUT_{c["uid"]}\n' + (f'CR_{c["uid"]}\r\nbar\rX\n'
+                               if sum(map(ord, c['uid'])) % 3 == 0 else '')
+        for c in ran)
     if out != want_out:
         rec.violation('stdout-differs', f'{name!r}: captured {out!r}, '
                       f'expected {want_out!r}', case)
